@@ -136,6 +136,23 @@ func propC12(c *Ctx) {
 			c.concScenario("pair-of-first-used-languages", 8+c.rng.Intn(9), mk(li, lj))
 		}
 	}
+	// ALL ten languages first-used at the same moment: one goroutine per (language, copy), so every pair
+	// of lazily built tables is under construction concurrently in one scenario (the pair sweep above
+	// samples a sixth of the ordered pairs per quick run)
+	allReps := 4
+	if !c.quick {
+		allReps = 40
+	}
+	for k := 0; k < allReps; k++ {
+		ops := []string{}
+		for li := range langVals {
+			for copy := 0; copy < 2; copy++ {
+				ops = append(ops, fmt.Sprintf("chk %d %s", langVals[li], hx([]byte(valid[li]))))
+			}
+		}
+		c.rng.Shuffle(len(ops), func(a, b int) { ops[a], ops[b] = ops[b], ops[a] })
+		c.concScenario("all-languages-cold-start", len(ops), ops)
+	}
 	// same language hammered by many goroutines (the once-vs-nil-check window)
 	reps := 3
 	if !c.quick {
